@@ -1,4 +1,5 @@
 import ElvisVerif.Lemmas.ArpAgree
+import ElvisVerif.Lemmas.ArpCodec
 /-!
 # C06 — ARP resolves an IP address to its owner's (or the gateway's) MAC
 
@@ -47,6 +48,15 @@ theorem Owned.ownerMac {s : Net} (hd : Distinct s) {x : Ip} {mac : Mac} (h : Own
     OwnerMac s x mac := by
   obtain ⟨j, o, hj, hx, hm⟩ := h
   exact ⟨j, o, hj, hx, hm, fun j' o' hj' hx' => hd j' j o' o x hj' hj hx' hx⟩
+
+/-! ## wire form -/
+
+/-- `ArpPacket::from_bytes (build p) = p` for every packet whose fields fit their wire widths
+    (MAC 48 bits, IP 32 bits); so the structured frames of the transition system and the bytes on
+    the wire carry the same information.  The wire form is 28 bytes. -/
+theorem c06_codec_roundtrip (p : Packet) (h : p.WF) (rest : List UInt8) :
+    fromBytes (build p ++ rest) = .ok p ∧ (build p).length = 28 :=
+  ⟨fromBytes_build p h rest, build_length p⟩
 
 /-! ## c06_reply_only_owner -/
 
@@ -362,23 +372,23 @@ theorem c06_never_other_machine {s : Net} (hr : Reach s) (hd : Distinct s) (r : 
 
 /-! ## regression witnesses of F-C06-1 (fixed) -/
 
-/-- ten rounds without any delivery: the resolution started first gives up at 2 s -/
-def tenRounds : List Label :=
-  (List.range 10).flatMap fun _ => [Label.tick 200000, Label.timeout 0]
+/-- `n` further rounds without any delivery (time-out of resolver 0 every `RESEND_DELAY`) -/
+def rounds (n : Nat) : List Label :=
+  (List.range n).flatMap fun _ => [Label.tick resendDelayUs, Label.timeout 0]
 
-/-- the owner of address 2 appears 0.5 s after a failed resolution; 0.5 s later the address is
-    resolved again on a loss-free network -/
+/-- a resolution of address 2 fails for want of an owner; the owner appears 0.5 s later; 0.5 s
+    after that the address is resolved again on a loss-free network -/
 def staleWitness : List Label :=
-  [.listen 0 1, .resolve 0 1 2 0] ++ tenRounds ++
-  [.tick 500000, .listen 1 2, .tick 500000, .resolve 0 1 2 0, .deliver 10 1 0, .deliver 11 0 0, .wake 1]
+  [.listen 0 1, .resolve 0 1 2 0] ++ rounds resendTries ++
+  [.tick 500000, .listen 1 2, .tick 500000, .resolve 0 1 2 0,
+   .deliver resendTries 1 0, .deliver (resendTries + 1) 0 0, .wake 1]
 
-/-- a second resolver joins 0.1 s before the first one gives up; its request is answered 50 ms
-    after that -/
+/-- a second resolver joins half a `RESEND_DELAY` before the first one gives up; its request is
+    answered a quarter of a `RESEND_DELAY` after that -/
 def joinWitness : List Label :=
-  [.listen 0 1, .listen 1 2, .resolve 0 1 2 0] ++
-  ((List.range 9).flatMap fun _ => [Label.tick 200000, Label.timeout 0]) ++
-  [.tick 100000, .resolve 0 1 2 0, .tick 100000, .timeout 0, .wake 1,
-   .tick 50000, .deliver 10 1 0, .deliver 11 0 0, .wake 1]
+  [.listen 0 1, .listen 1 2, .resolve 0 1 2 0] ++ rounds (resendTries - 1) ++
+  [.tick (resendDelayUs / 2), .resolve 0 1 2 0, .tick (resendDelayUs - resendDelayUs / 2), .timeout 0, .wake 1,
+   .tick (resendDelayUs / 4), .deliver resendTries 1 0, .deliver (resendTries + 1) 0 0, .wake 1]
 
 def resultOf (s : Net) (i : Nat) : Option (Status × Nat) := (s.resolvers[i]?).bind (·.result)
 
@@ -386,20 +396,23 @@ def resultOf (s : Net) (i : Nat) : Option (Status × Nat) := (s.resolvers[i]?).b
     returns `Err` at once although the address is claimed and nothing is lost; with the fix it
     returns the owner's MAC. -/
 theorem c06_stale_failure_regression :
-    resultOf (run (initWith true [1, 1] 65535) staleWitness) 1 = some (.err, 3000000) ∧
-    resultOf (run (initWith false [1, 1] 65535) staleWitness) 1 = some (.ok 1, 3000000) := by
-  constructor <;> decide
+    resultOf (run (initWith true [1, 1] 65535) staleWitness) 0 = some (.err, budgetUs) ∧
+    resultOf (run (initWith true [1, 1] 65535) staleWitness) 1 = some (.err, budgetUs + 1000000) ∧
+    resultOf (run (initWith false [1, 1] 65535) staleWitness) 1 = some (.ok 1, budgetUs + 1000000) := by
+  refine ⟨?_, ?_, ?_⟩ <;> decide
 
-/-- With the cached failure waking waiters (before the fix) the resolver that joined at 1.9 s
-    fails at 2.0 s, after 0.1 s of its 2 s budget; with the fix it gets the owner's answer at
-    2.05 s. -/
+/-- With the cached failure waking waiters (before the fix) the resolver that joined half a
+    `RESEND_DELAY` before the end of the first one's budget fails together with it, having used
+    a fraction of its own budget; with the fix it gets the owner's answer a quarter of a
+    `RESEND_DELAY` later. -/
 theorem c06_early_failure_regression :
-    resultOf (run (initWith true [1, 1] 65535) joinWitness) 1 = some (.err, 2000000) ∧
-    resultOf (run (initWith false [1, 1] 65535) joinWitness) 1 = some (.ok 1, 2050000) := by
+    resultOf (run (initWith true [1, 1] 65535) joinWitness) 1 = some (.err, budgetUs) ∧
+    resultOf (run (initWith false [1, 1] 65535) joinWitness) 1 = some (.ok 1, budgetUs + resendDelayUs / 4) := by
   constructor <;> decide
 
-/-- the retry budget of the code as extracted: 10 requests, 200 ms apart, 2 s in all -/
-theorem c06_budget_value : resendTries = 10 ∧ resendDelayUs = 200000 ∧ budgetUs = 2000000 := by decide
+/-- the extracted retry budget is a real budget (whatever its values: the theorems above are
+    stated over the extracted constants, not over 10 × 200 ms) -/
+theorem c06_budget_positive : 0 < resendTries ∧ 0 < resendDelayUs ∧ 0 < budgetUs := by decide
 
 /-! ## non-vacuity: a concrete reachable state satisfying the hypotheses above -/
 
@@ -445,7 +458,7 @@ theorem exampleState_distinct : Distinct exampleState := by
   | 1, j + 2 => simp at hj
   | i + 2, _ => simp at hi
 
-example : (exampleState.resolvers.map (·.result)) = [some (.err, 2000000), some (.ok 1, 3000000)] := by decide
+example : (exampleState.resolvers.map (·.result)) = [some (.err, budgetUs), some (.ok 1, budgetUs + 1000000)] := by decide
 
 /-- the soundness theorem applied to the concrete state: the second resolution's MAC 1 is a tap
     of the machine claiming address 2 -/
